@@ -48,7 +48,15 @@ class GotranPythonCodePrinter(PythonCodePrinter):
             return super()._print_MatrixElement(expr)
 
     def _print_Float(self, flt):
-        return self._print(str(float(flt)))
+        value = float(flt)
+        # A constant beyond the range of a double (sympy's floats have an
+        # unbounded exponent) is infinite in double precision; str() would
+        # give the bare names "inf" / "nan"
+        if value != value:
+            return "numpy.nan"
+        if value in (float("inf"), float("-inf")):
+            return "numpy.inf" if value > 0 else "(-numpy.inf)"
+        return self._print(str(value))
 
     def _print_Mod(self, expr):
         # ``%`` binds as tightly as ``*`` in Python, so a bare ``a % b`` inside a
